@@ -6,7 +6,7 @@ import ast
 from . import e2_formula as F
 from .core import AnchorError, Unsupported
 from .e1_srcmodel import dotted, walk_no_nested
-from .e2_eval import is_unknown, need
+from .e2_eval import is_unknown, need, Unknown as Unknown_
 
 UTIL = "pyyeti/ode/_utilities.py"
 SOLVEUNC = "pyyeti/ode/solveunc.py"
@@ -281,21 +281,22 @@ def r1b_regime_selectors(ctx):
                 continue
             sr = F.series(el[nm], "lam", 0)
             ok = sr.val >= 0 and sr.coef(0).equals(rbv[nm])
-            ctx.check(ok, f"_get_complex_su_coefs: the rigid-body override of {nm} is the lambda->0 limit of the elastic formula{sfx}", fn2,
-                      None if ok else {"limit": repr(sr.coef(0)) if sr.val >= 0 else "singular", "override": repr(rbv[nm])})
+            _chk(ctx, ok, f"_get_complex_su_coefs: the rigid-body override of {nm} is the lambda->0 limit of the elastic formula{sfx}", fn2,
+                 None if ok else {"limit": repr(sr.coef(0)) if sr.val >= 0 else "singular", "override": repr(rbv[nm])}, vals=(el[nm], rbv[nm]))
         if good(el.get("Ae")) and good(el.get("Be")):
             E = F.exp(lam * h)
             ok = (el["Ae"] + el["Be"]).equals((E - 1) / lam)
-            ctx.check(ok, f"_get_complex_su_coefs: Ae + Be = (e^(lambda h) - 1)/lambda (constant-force integral){sfx}", fn2)
+            _chk(ctx, ok, f"_get_complex_su_coefs: Ae + Be = (e^(lambda h) - 1)/lambda (constant-force integral){sfx}", fn2,
+                 None if ok else repr(el["Ae"] + el["Be"])[:300], vals=(el["Ae"], el["Be"]))
             # Be = int_0^h e^{lam (h - t)} t/h dt = (e^{lam h} - 1 - lam h)/(lam^2 h)
             ok = el["Be"].equals((E - 1 - lam * h) / (lam * lam * h))
-            ctx.check(ok, f"_get_complex_su_coefs: Be = (e^(lambda h) - 1 - lambda h)/(lambda^2 h) (ramp-force integral){sfx}", fn2,
-                      None if ok else repr(el["Be"]))
+            _chk(ctx, ok, f"_get_complex_su_coefs: Be = (e^(lambda h) - 1 - lambda h)/(lambda^2 h) (ramp-force integral){sfx}", fn2,
+                 None if ok else repr(el["Be"]), vals=(el["Be"],))
         Fe = el.get("Fe")
         ok = good(Fe) and Fe.equals(F.exp(lam * h))
-        ctx.check(ok, f"_get_complex_su_coefs: Fe = e^(lambda h){sfx}", fn2, None if ok else repr(Fe))
+        _chk(ctx, ok, f"_get_complex_su_coefs: Fe = e^(lambda h){sfx}", fn2, None if ok else repr(Fe), vals=(Fe,) if Fe is not None else (Unknown_("Fe is not published"),))
         if good(rbv.get("Fe")):
-            ctx.check(rbv["Fe"].equals(1), f"_get_complex_su_coefs: the rigid-body override of Fe is 1{sfx}", fn2)
+            _chk(ctx, rbv["Fe"].equals(1), f"_get_complex_su_coefs: the rigid-body override of Fe is 1{sfx}", fn2, repr(rbv["Fe"])[:200], vals=(rbv["Fe"],))
         else:
             ctx.error(f"_get_complex_su_coefs: Fe of a near-zero eigenvalue{sfx}", fn2, repr(rbv.get("Fe")))
     # get_su_eig rigid-body constants equal the undamped rb coefficient set with m = 1:  G = h, A = h^2/3, Ap = h/2
@@ -372,17 +373,24 @@ def _half(v):
     if any(isinstance(x, str) for x in args):
         return None
     NONE_ = F.sym("None")
-    if nm in ("call:range", "call:np.arange"):
+    if nm in ("call:range", "call:np.arange", "call:numpy.arange"):
         if len(args) == 1:
             return "first", args[0]
-        if len(args) == 2 and args[1].equals(2 * args[0]):
+        if len(args) == 2 and args[0].is_zero() and not args[1].is_zero():
+            return "first", args[1]          # range(0, n)
+        if len(args) == 2 and args[1].equals(2 * args[0]) and not args[0].is_zero():
             return "second", args[0]
-        return "other", None
-    if nm == "slice" and len(args) == 3 and args[2].equals(NONE_):
-        if args[0].equals(NONE_) and not args[1].equals(NONE_):
-            return "first", args[1]
-        if not args[0].equals(NONE_) and (args[1].equals(NONE_) or args[1].equals(2 * args[0])):
-            return "second", args[0]
+        if len(args) in (1, 2):
+            return "other", None
+        return None                          # a step: not decided here
+    if nm == "slice" and len(args) == 3 and (args[2].equals(NONE_) or args[2].equals(1)):
+        lo, hi = args[0], args[1]
+        if lo.is_zero():
+            lo = NONE_                       # `0:n` is `:n`
+        if lo.equals(NONE_) and not hi.equals(NONE_):
+            return "first", hi
+        if not lo.equals(NONE_) and (hi.equals(NONE_) or hi.equals(2 * lo)):
+            return "second", lo
         return "other", None
     return None
 
@@ -570,8 +578,14 @@ def r4_frame_typing(ctx):
                                     ((F.sym("d_work"), F.sym("v_work"), F.sym("a_work")) if dotted(node.func) == "self._alloc_dva" else NotImplemented)),
              subscript=lambda node, ev: (ev.ev(node.value) if isinstance(node.value, ast.Name) and node.value.id == "force" else NotImplemented))
     c4 = S4.calls("self._init_dv")
-    ok = len(c4) == 1 and len(c4[0][1]) >= 5 and S4.same(c4[0][1][2], F.sym("d0")) and S4.same(c4[0][1][3], F.sym("v0")) and S4.same(c4[0][1][4], F.sym("f"))
-    ctx.check(ok, "_init_dva (no pre_eig): d0, v0 and the force reach _init_dv unchanged", f_dva)
+    if len(c4) != 1:
+        raise AnchorError("_init_dva: call to self._init_dv")
+    tgt4 = [a.arg for a in ctx.src.func(O.BASE, "_BaseODE._init_dv").args.args][1:]
+    v4 = dict(zip(tgt4, c4[0][1]))          # by the signature of _init_dv: positional or keyword
+    v4.update(c4[0][2])
+    ok = S4.same(v4.get("d0"), F.sym("d0")) and S4.same(v4.get("v0"), F.sym("v0")) and S4.same(v4.get("F0"), F.sym("f"))
+    _chk(ctx, ok, "_init_dva (no pre_eig): d0, v0 and the force reach _init_dv unchanged", c4[0][3], None if ok else {k_: repr(v4.get(k_))[:120] for k_ in ("d0", "v0", "F0")},
+         vals=tuple(v4.get(k_) if v4.get(k_) is not None else Unknown_(f"no argument {k_}") for k_ in ("d0", "v0", "F0")))
     # generator refuses pre_eig before any array is shared: on the pre_eig path the evaluation of _init_dva_part ends in a `raise` and no work array has
     # been requested before it
     f4 = ctx.src.func(O.BASE, "_BaseODE._init_dva_part")
@@ -801,7 +815,7 @@ def r7_subspace_typing(ctx):
     coefficient is built from another mode's mass / damping / frequency (invisible when the properties are uniform or the selected modes are
     the leading ones, as in every test)."""
     from .e3_masks import A, I, S
-    from .c01_masks import MaskTyper01 as MaskTyper
+    from .c01_masks import MaskTyper01 as MaskTyper, AMix, IMix
     from .sem import module_funcs
     base_attrs = {"self.nonrf": I("N", "K"), "self.kdof": I("N", "K"), "self.rf": I("N", "N/rf"), "self.k": A("K"), "self.b": A("K"), "self.m": A("K")}
     for rel, qual, params, sizes, floor in (
@@ -826,13 +840,25 @@ def r7_subspace_typing(ctx):
             # what the method publishes: rb, el index the full set; _rb, _el index the non-rf set (the table the other rules rely on)
             for attr, dom in (("self.rb", "N"), ("self.el", "N"), ("self._rb", "K"), ("self._el", "K")):
                 t = T.attr_types.get(attr)
-                ok = isinstance(t, I) and t.dom == dom
-                ctx.check(ok, f"_make_rb_el: `{attr}` holds positions relative to the {'full' if dom == 'N' else 'non-rf'} equation set", fn, repr(t))
+                sp = t.dom if isinstance(t, I) else (t.s if isinstance(t, A) and t.kind == "mask" else None)      # an index vector, or a boolean mask over the set
+                label = f"_make_rb_el: `{attr}` holds positions relative to the {'full' if dom == 'N' else 'non-rf'} equation set"
+                if isinstance(t, IMix):
+                    ctx.fail(label, fn, f"{t!r}: on one of the paths through _make_rb_el the positions refer to another equation set", key=f"C01-R7|_make_rb_el|{attr}|mixed")
+                elif sp is None:
+                    ctx.error(label + ": the published value was not typed", fn, repr(t))
+                else:
+                    ctx.check(sp == dom, label, fn, repr(t))
         if qual.endswith("_chk_diag_part"):
             for attr, sp in (("self.m", "K"), ("self.b", "K"), ("self.k", "K"), ("self.krf", "N/rf")):
                 t = T.attr_types.get(attr)
                 ok = isinstance(t, A) and t.s in (sp, None) and (t.s == sp or attr == "self.m")
-                ctx.check(ok, f"_chk_diag_part: `{attr}` is stored on the {'non-rf' if sp == 'K' else 'rf'} equations when there are rf modes", fn, repr(t))
+                label = f"_chk_diag_part: `{attr}` is stored on the {'non-rf' if sp == 'K' else 'rf'} equations when there are rf modes"
+                if isinstance(t, AMix):
+                    ctx.fail(label, fn, f"{t!r}: on one of the paths through _chk_diag_part the value is taken from other rows", key=f"C01-R7|_chk_diag_part|{attr}|mixed")
+                elif not ok and (not isinstance(t, A) or t.s is None):
+                    ctx.error(label + ": the published value was not typed", fn, repr(t))          # unknown, not wrong
+                else:
+                    ctx.check(ok, label, fn, repr(t))
         seen = set()
         for kind, node, detail in bad:
             key = f"C01-R7|{qual}|{kind}|{ast.unparse(node)[:60]}"
@@ -1054,7 +1080,7 @@ def r9_solveexp2(ctx):
                 return hv[0]
             if hv[0] != "other" and hv[1] is not None and hv[1].equals(-K):
                 u_ = unfn_(sel)          # on an axis of length 2 K, `:-K` is the first half and `-K:` the second
-                if u_[0] == "slice" and sum(1 for x in u_[1] if x.equals(F.sym("None"))) == 2:
+                if u_[0] == "slice" and (hv[0] == "first" or u_[1][1].equals(F.sym("None"))):
                     return hv[0]
             return "other"
         from .sem import unfn as unfn_
